@@ -374,7 +374,13 @@ def check_kani_property(prop, spec, tier):
             ep = spec["expect_panic"][h]
             rec["role"] = "must panic at '%s' with nothing that writes reachable before it" % ep["fail_desc"]
             real = [f for f in r["failed"] if f["cat"] not in INCONCLUSIVE_CATS]
-            only_expected = bool(real) and all(ep["fail_desc"] in f["desc"] for f in real)
+            # the panic must come from the range check of the operation itself: an assertion-category check located
+            # in that function of /repo (matched by function name, not by message text, so that rewording the
+            # assertion does not raise a false alarm)
+            only_expected = bool(real) and all(
+                (ep["fail_desc"] in f["desc"]) or (f["cat"] == "assertion" and ep.get("fail_fn") and ep["fail_fn"] in (f.get("fn") or "")
+                                                 and (f.get("loc") or "").startswith(REPO + "/"))
+                for f in real)
             early = [a for a in r["repo_asserts"] if a["status"] != "Unreachable" and any(p in a["fn"] for p in ep["unreachable_fn"])]
             if cls == "fail" and only_expected and not early:
                 rec["verdict"] = "pass (panics at the range check only)"
